@@ -70,14 +70,23 @@ class Hazard(Exception):
     """The reference value is outside the statement (non-finite / branch cut)."""
 
 
+class Ambiguous(Hazard):
+    """Value on a branch cut: two correct evaluation orders may legitimately differ."""
+
+
 # ---------------------------------------------------------------------------------------------
 # independent numeric evaluation of a sympy tree (plain Python complex arithmetic)
 
 _FUNCS = {"cos": cmath.cos, "cosh": cmath.cosh, "sin": cmath.sin, "sinh": cmath.sinh, "exp": cmath.exp}
 
 
-def _safe_pow(bv: complex, xv: complex) -> complex:
-    if abs(xv.imag) < 1e-12 and abs(xv.real - round(xv.real)) < 1e-12:
+def _safe_pow(bv: complex, xv: complex, computed_exponent: bool) -> complex:
+    """computed_exponent: the exponent is itself a computed sub-expression (its rounding may differ between two
+    correct evaluation orders), so a base on a branch cut makes the value ambiguous."""
+    on_cut = abs(bv) < 1e-9 or abs(cmath.phase(bv)) > math.pi - 1e-6
+    if on_cut and computed_exponent:
+        raise Ambiguous("zero / negative base to a computed exponent")
+    if xv.imag == 0 and xv.real == round(xv.real):
         n = int(round(xv.real))
         if abs(bv) < 1e-9:
             if n < 0:
@@ -87,9 +96,9 @@ def _safe_pow(bv: complex, xv: complex) -> complex:
             raise Hazard("huge power")
         return bv ** n
     if abs(bv) < 1e-9:
-        raise Hazard("zero base, non-integer exponent")
-    if abs(cmath.phase(bv)) > math.pi - 1e-6:
-        raise Hazard("negative base to a non-integer power")
+        raise Ambiguous("zero base, non-integer exponent")
+    if on_cut:
+        raise Ambiguous("negative base to a non-integer power")
     return cmath.exp(xv * cmath.log(bv))
 
 
@@ -125,7 +134,7 @@ def _nev(e, env) -> complex:
             p *= _nev(x, env)
         return p
     if isinstance(e, sympy.Pow):
-        r = _safe_pow(_nev(e.args[0], env), _nev(e.args[1], env))
+        r = _safe_pow(_nev(e.args[0], env), _nev(e.args[1], env), bool(e.args[1].args))
         if abs(r) > 1e12:
             raise Hazard("huge")
         return r
@@ -334,6 +343,8 @@ def check_value_of(label, call, e, rm: RefMap, recursive: bool):
     for p, rv in zip(PROBES, refvals):
         try:
             gv = eval_any(got, p)
+        except Ambiguous:
+            return Res(skipped=True, nontrivial=False)
         except Hazard as h:
             return bad(f"{label}: returned {got!r} which is not finite at {p} ({h}); ordinary substitution gives {ref}", kind="value")
         except (KeyError, TypeError, ValueError) as ex:
@@ -515,9 +526,8 @@ def small_resolver_specs():
 def value_of_structure_cases(tier):
     cases = []
     specs = small_resolver_specs()
-    # depth-3 trees: unresolved / fully resolved (3 type patterns) / one symbol resolved / symbolic chains
-    specs3 = [s for s in specs if s.count(0) in (0, 3) or (s.count(0) == 2 and (V_F in s and s.index(V_F) == 0 or V_NPF in s and s.index(V_NPF) == 1 or V_INT in s and s.index(V_INT) == 2))]
-    specs3 += [s for s in specs[-3:] if s not in specs3]
+    # depth-3 trees: unresolved / fully resolved / one symbol resolved / symbolic chain
+    specs3 = [(0, 0, 0), (V_F, V_NPF, V_INT), (V_INT, V_F, V_NEG), (0, V_NPF, 0), (V_B1, V_2C, 0)]
     for which in ("E1", "E2", "E3"):
         n = len(_EXPRS[which])
         for s in (specs3 if which == "E3" else specs):
@@ -549,7 +559,7 @@ def value_of_resolver_cases(tier):
                     for ei in core_forms:
                         if not isinstance(ES[ei], str) and not slow_case(sp, ES[ei], rec):
                             cases.append((va, vb, vc, 1, rec, "ES", ei, 1))
-                    if tier == "thorough":
+                    if tier == "thorough" and rec:
                         E1 = _EXPRS["E1"]
                         for ei in range(nE1):
                             if not slow_case(sp, E1[ei], rec):
@@ -607,7 +617,7 @@ def history_cases(tier):
         kfs = (0,)
     else:
         vals = list(range(11))
-        kfs = (0, 1)
+        kfs = (0,)
     for va in vals:
         for vb in vals:
             for vc in vals:
@@ -620,7 +630,7 @@ def history_cases(tier):
                             cases.append((va, vb, vc, kf, (c1, c2)))
     if tier == "thorough":
         vals3 = [V_ABSENT, V_F, V_A, V_B, V_B1, V_2C]
-        l3 = [(ei, rec) for ei in (0, 1, 4, 7) for rec in (1, 0)]
+        l3 = [(ei, rec) for ei in (0, 1, 7) for rec in (1, 0)]
         for va in vals3:
             for vb in vals3:
                 for vc in vals3:
@@ -687,10 +697,14 @@ def run_compose(case):
         for p, rv in zip(PROBES, refvals):
             try:
                 gv = eval_any(got, p)
+            except Ambiguous:
+                break
             except (Hazard, KeyError, TypeError, ValueError) as ex:
                 return bad(f"{label} = {comp!r}; .value_of({e!r}) = {got!r} cannot be evaluated ({ex}); r2(r1(e)) = {ref}", kind="compose_value")
             if not close(gv, rv):
-                return bad(f"{label} = {comp!r}; .value_of({e!r}) = {got!r} = {gv} at {p}; r2(r1(e)) = {ref} = {rv}", kind="compose_value")
+                names = [k.name if isinstance(k, sympy.Symbol) else k for k in comp.param_dict]
+                kind = "compose_duplicate_keys" if len(set(names)) != len(names) else "compose_value"
+                return bad(f"{label} = {comp!r}; .value_of({e!r}) = {got!r} = {gv} at {p}; r2(r1(e)) = {ref} = {rv}", kind=kind)
         checked += 1
     return good(nontrivial=checked > 0 and bool(rm1.active) and bool(rm2.active), compared=checked)
 
@@ -1656,7 +1670,7 @@ def sim_sweep_cases(tier):
         for seq in itertools.product(range(n), repeat=k):
             for layout in (0, 1):
                 for si in range(len(SIMS)):
-                    if k == Lmax and si in (1, 3) and tier == "quick":
+                    if k == Lmax and si in (1, 3):
                         continue
                     out.append((seq, layout, si))
     return out
@@ -1827,7 +1841,7 @@ def flatten_cases(tier):
     out = []
     for which in ("E1", "E2"):
         for ei, e in enumerate(_EXPRS[which]):
-            if e.free_symbols:
+            if e.free_symbols and not e.has(I):  # gate parameters are real: no complex intermediates
                 for v in (0, 1, 2):
                     out.append((which, ei, v))
     return out
